@@ -61,3 +61,40 @@ Section Tie.
       inversion H; subst; apply Z.leb_le in E1; apply Z.ltb_lt in E2; repeat split; lia.
   Qed.
 End Tie.
+
+(** ** [set_frame_duration], translated statement by statement, and the position of the
+    finalized check in every control method *)
+Section TieDuration.
+  Variable RS : Type.
+  Local Notation state := (state RS).
+
+  Definition apply_sfd (s : state) (r : sfd_res) : state * out :=
+    match r with
+    | FFinalized => (s, OErr EFinalized)
+    | FValue => (s, OErr EValue)
+    | FAssign d =>
+        (set_rd RS s {| fo := fo (rd s); wh := wh (rd s); d_size := d_size (rd s); d_dur := d |}, OOk)
+    end.
+
+  Theorem set_frame_duration_is_source : forall (s : state) d,
+    set_duration RS s d = apply_sfd s (src_set_frame_duration (closed s) d).
+  Proof.
+    intros s d. unfold set_duration, src_set_frame_duration, apply_sfd.
+    destruct (closed s); [reflexivity|].
+    destruct d as [|ms]; [reflexivity|].
+    destruct (ms <=? 0); reflexivity.
+  Qed.
+End TieDuration.
+
+(** in every control method the finalized check is the FIRST statement: on a finalized
+    iterator no argument is looked at *)
+Theorem finalized_check_first :
+  forall p, In p src_finalized_check_position -> snd p = 0%nat.
+Proof.
+  intros p H. unfold src_finalized_check_position in H. cbn in H.
+  repeat (destruct H as [H|H]; [subst p; reflexivity|]). destruct H.
+Qed.
+
+Theorem finalized_check_covers_all_methods :
+  map fst src_finalized_check_position = (0 :: 1 :: 2 :: 3 :: 4 :: nil)%nat.
+Proof. reflexivity. Qed.
